@@ -49,6 +49,15 @@ Definition is_empty_geno (g : geno) : bool :=
 Definition has_half (g : geno) : bool :=
   existsb (existsb (fun c : call => let '(a, b, _) := c in negb (Bool.eqb (a =? 255) (b =? 255)))) (g_rows g).
 
+(* positions the formats can hold: 1 .. 2^31 - 1 with the last base of REF at or below
+   2^31 - 1 (VCF/BCF: htslib's 32-bit coordinates); PGEN: below 2^31 - 1 (pgenlib's .pvar
+   reader).  Beyond them write refuses (C07_Model.write_guard) and nothing is demanded. *)
+Definition pos_okb (pgen : bool) (v : variant) : bool :=
+  (1 <=? v_pos v) && (1 <=? v_reflen v) && (v_pos v + v_reflen v - 1 <=? int_max)
+  && (negb pgen || (v_pos v <? int_max)).
+
+Definition pos_domb (pgen : bool) (g : geno) : bool := forallb (pos_okb pgen) (g_variants g).
+
 Definition chunk_domb (cs : option Z) : bool :=
   match cs with None => true | Some c => 1 <=? c end.
 
@@ -160,10 +169,10 @@ Definition contracts_pgen (k : pcase) : bool :=
 
 Definition model_pgen (k : pcase) : res (Z * list batch) * res geno :=
   let g := written (pc_wpre k) (pc_g k) in
-  (match pgen_write paccept_std false (pc_cw k) g with
+  (match pgen_write_g paccept_std false (pc_cw k) g with
    | Ok pf => Ok (pf_limit pf, pf_batches pf)
    | Err e => Err e end,
-   match pgen_roundtrip_model paccept_std pload_std false (pc_cw k) (pc_cr k) g with
+   match pgen_roundtrip_g paccept_std pload_std false (pc_cw k) (pc_cr k) g with
    | Ok b => Ok (as_read (pc_rpre k) b)
    | Err e => Err e end).
 
@@ -178,7 +187,7 @@ Definition not_crash (e : Z) : bool := negb (e =? E_Crash) && negb (e =? 12).
 
 Definition holds_pgen (k : pcase) : bool :=
   let g := pc_g k in
-  if geno_domb0 true g && chunk_domb (pc_cw k) && chunk_domb (pc_cr k) then
+  if geno_domb0 true g && pos_domb true g && chunk_domb (pc_cw k) && chunk_domb (pc_cr k) then
     if (lenZ (g_samples g) =? 0) && negb (lenZ (g_variants g) =? 0) then
       (* variants without samples: PGEN cannot hold them; a refusal is accepted, a crash is not *)
       match pc_back k with
@@ -216,24 +225,30 @@ Record vcase := mkvc {
   vc_rback : res geno         (* ... observed: what haptools read (Err 0 when none was requested) *)
 }.
 
-Definition model_vcf (k : vcase) : vfile * res geno * res geno :=
+(* a write that pysam refuses leaves nothing to read: the harness then reports the error of
+   the write as what was read back, and no region read *)
+Definition model_vcf (k : vcase) : res vfile * res geno * res geno :=
   let g := written (vc_wpre k) (vc_g k) in
-  let d := mkvd (vc_fmt k) (vc_idx k) (vcf_write g) in
-  let rd := fun region => match vcf_read vload_std hts_std false false region d with
-                          | Ok b => Ok (as_read (vc_rpre k) b)
-                          | Err e => Err e
-                          end in
-  (vcf_write g, rd None,
-   match vc_region k with Some c => rd (Some c) | None => Err 0 end).
+  match vcf_write_g g with
+  | Err e => (Err e, Err e, Err 0)
+  | Ok f =>
+      let d := mkvd (vc_fmt k) (vc_idx k) f in
+      let rd := fun region => match vcf_read vload_std hts_std false false region d with
+                              | Ok b => Ok (as_read (vc_rpre k) b)
+                              | Err e => Err e
+                              end in
+      (Ok f, rd None,
+       match vc_region k with Some c => rd (Some c) | None => Err 0 end)
+  end.
 
 Definition agree_vcf (k : vcase) : bool :=
   let '(f, b, rb) := model_vcf k in
-  res_eqb vfile_eqb (Ok f) (vc_file k) && res_eqb geno_eqb b (vc_back k)
+  res_eqb vfile_eqb f (vc_file k) && res_eqb geno_eqb b (vc_back k)
   && res_eqb geno_eqb rb (vc_rback k).
 
 Definition holds_vcf (k : vcase) : bool :=
   let g := vc_g k in
-  if geno_domb0 true g then
+  if geno_domb0 true g && pos_domb false g then
     match vc_back k with
     | Ok g' => if is_empty_geno g then empty_back g g'
                else same_back (vc_wpre k) (vc_rpre k) g g'
